@@ -23,6 +23,10 @@ def gen_case(seed, i):
     n = r.randint(0, 12)
     recs = []
     header = r.sample(NAMES, min(width, len(NAMES)))
+    if len(header) > 1 and r.random() < 0.25:
+        # a header record that repeats a name: #name then addresses the first column carrying it
+        a, b = r.sample(range(len(header)), 2)
+        header[max(a, b)] = header[min(a, b)]
     use_named_header = r.random() < 0.6
     for j in range(n):
         if r.random() < 0.15:
@@ -126,8 +130,10 @@ def case_reader(case):
         if o2["errors"]:
             res["oracle"].append({"what": "a header missing from a short row raised instead of reading as absent", "errors": o2["errors"][:3]})
         data = [r_ for r_ in recs if r_]
-        for k, nm in enumerate(first):
-            byn = o2["variables"].get(f"n{k}")
+        for k0, nm in enumerate(first):
+            # a repeated name addresses the first column that carries it
+            k = first.index(nm)
+            byn = o2["variables"].get(f"n{k0}")
             byi = o2["variables"].get(f"i{k}")
             want_col = [(row[k].strip() if k < len(row) else None) for row in data]
             if byn != byi:
